@@ -61,6 +61,7 @@ func genSrvHandlers(repo string) (string, error) {
 			continue
 		}
 		f, err := parser.ParseFile(fset, filepath.Join(dir, n), nil, 0)
+		normalizeFile(f)
 		if err != nil {
 			return "", err
 		}
@@ -275,6 +276,7 @@ type srvExtract struct {
 func (x *srvExtract) readInterface(repo string) error {
 	fset := token.NewFileSet()
 	g, err := parser.ParseFile(fset, filepath.Join(repo, "ociregistry/interface.go"), nil, 0)
+	normalizeFile(g)
 	if err != nil {
 		return err
 	}
@@ -346,6 +348,7 @@ func (x *srvExtract) readInterface(repo string) error {
 func srvKinds(repo string) ([]string, error) {
 	fset := token.NewFileSet()
 	f, err := parser.ParseFile(fset, filepath.Join(repo, "ociregistry/internal/ocirequest/request.go"), nil, 0)
+	normalizeFile(f)
 	if err != nil {
 		return nil, err
 	}
